@@ -20,17 +20,17 @@ def gen_cfg(rng):
     ntw = int(rng.integers(1, 4))
     nstep = int(rng.integers(1, 4))
     closure = str(rng.choice(CLOSURES))
-    forcing = "ustar" if closure == "OAAHOC" else str(rng.choice(["ustar", "z0"]))
+    forcing = "ustar" if closure == "OAAHOC" else str(rng.choice(["ustar", "z0", "both"]))
     lst = rng.random() < 0.6
 
     def series(lo, hi, unstable=False):
         v = [float(rng.uniform(lo, hi)) for _ in range(nstep)]
         return v if lst else v[0]
     met = dict(wind_speed=series(2, 6), wind_dir=series(0, 360), mol=(series(-300, -40) if rng.random() < 0.5 else series(80, 500)))
-    if forcing == "z0":
+    if forcing in ("z0", "both"):
         met["z0"] = float(rng.uniform(0.02, 0.12))
-    else:
-        met["ustar"] = series(0.3, 0.5)
+    if forcing in ("ustar", "both"):
+        met["ustar"] = series(0.3, 0.5)     # with both given, the roughness length takes precedence
     if not lst:
         nstep = 1
     if rng.random() < 0.5:
@@ -257,7 +257,8 @@ def run(rng, tier, deep):
             for k in ("closure", "precision"):
                 key = "%s=%s" % (k, raw["solver"][k])
                 st["branches"][key] = st["branches"].get(key, 0) + 1
-            key = "forcing=%s" % ("z0" if raw["met"].get("z0") is not None else "ustar")
+            key = "forcing=%s" % ("both" if (raw["met"].get("z0") is not None and raw["met"].get("ustar") is not None)
+                                  else ("z0" if raw["met"].get("z0") is not None else "ustar"))
             st["branches"][key] = st["branches"].get(key, 0) + 1
     outs = run_driver(lines)
     for l, i, o, w in zip(lines, impls, outs, wires):
